@@ -85,6 +85,7 @@ type c19In struct {
 	VLen   int       `json:"vlen,omitempty"`
 	Empty  string    `json:"empty,omitempty"`
 	Sub    string    `json:"sub,omitempty"`
+	Conns  [][]string `json:"conns,omitempty"`
 }
 
 func c19Hex(s string) []byte {
@@ -904,6 +905,10 @@ func c19Run(in0 interface{}) Result {
 		return c19RunTotal(in)
 	case "hellotrail", "hellocut", "helloconn", "pool", "fseg", "label", "xff", "ws":
 		return c19RunB(in)
+	case "seq":
+		return c19RunSeq(in)
+	case "hostonly":
+		return c19RunHostOnly(in)
 	}
 	panic("bad kind " + in.Kind)
 }
@@ -1002,6 +1007,17 @@ func c19GetTLSServer() (*httpserver.Server, string) {
 	if c19TLSServer != nil {
 		return c19TLSServer, c19TLSAddr
 	}
+	s := c19NewTLSServer()
+	ln, err := s.Listen()
+	if err != nil {
+		panic("harness: Listen: " + err.Error())
+	}
+	go s.Serve(ln)
+	c19TLSServer, c19TLSAddr = s, ln.Addr().String()
+	return c19TLSServer, c19TLSAddr
+}
+
+func c19NewTLSServer() *httpserver.Server {
 	casket.Quiet = true
 	log.SetOutput(c19Log)
 	c := casket.NewTestController("http", "tls self_signed\n")
@@ -1031,13 +1047,7 @@ func c19GetTLSServer() (*httpserver.Server, string) {
 	if err != nil {
 		panic("harness: NewServer: " + err.Error())
 	}
-	ln, err := s.Listen()
-	if err != nil {
-		panic("harness: Listen: " + err.Error())
-	}
-	go s.Serve(ln)
-	c19TLSServer, c19TLSAddr = s, ln.Addr().String()
-	return c19TLSServer, c19TLSAddr
+	return s
 }
 
 func c19RunTLS(in *c19In) Result {
@@ -2153,6 +2163,7 @@ func c19Gen(r *Rand, tier string) []interface{} {
 		add(&c19In{Kind: "http", Data: c19H(c19GenRaw(r))})
 	}
 	c19GenB(r, tier, add)
+	c19GenC(r, tier, add)
 	_ = sort.Strings
 	return out
 }
